@@ -15,6 +15,30 @@ def needs_drain_limit(q):
     return ("LEFT JOIN" in s) and (" LIMIT " in s or "EXISTS" in s)
 
 
+def const_subquery_class(rec, gmodel, known_ids):
+    """class optimizer-constant-operand-subquery: with the optimizer on, a [NOT] IN / ANY / ALL subquery whose left
+    operand is a constant becomes a mark join whose condition references no left column; join reordering mishandles
+    it (intermittently, it iterates a randomly seeded HashMap): internal error, the hyper-edge assertion, or lost /
+    duplicated rows of the other FROM items.  Recognised structurally AND by the same statement being answered
+    correctly (admitted by the reference semantics or one of its listed variants) with the optimizer off."""
+    q = rec["q"]
+    if "optimizer-constant-operand-subquery" not in known_ids or not rec["cfg"].get("enable_optimizer", True):
+        return None
+    if not sqlast.const_left_subquery(sqlast.parse(q.sx)):
+        return None
+    stmts = [x for x in rec["stmts"][:-1] if not x.startswith("set enable_optimizer")] + \
+            ["set enable_optimizer to false", rec["stmts"][-1]]
+    r2 = common.run_harness(rec["gverif"], "sql", [{"id": "k", "mode": "det", "partitions": 2,
+                                                    "sched": {"kind": "fifo", "seed": 1}, "stmts": stmts, "timeout_s": 60}])[0]
+    last = (r2.get("results") or [{}])[-1]
+    if not last.get("ok"):
+        return None
+    got = "(" + " ".join("(" + " ".join(sqlrun.cell_sx(x) for x in row) + ")" for row in last["rows"]) + ")"
+    texts = [sqlast.expand_text(q.sx)] + [v for k, v in sqlast.variants(q.sx).items() if "distributive-or-absorption" not in k]
+    res = common.run_model(gmodel, "x", ["(check %s %s %s)" % (rec["dbsx"], t, got) for t in texts])
+    return "optimizer-constant-operand-subquery" if any(x == "OK" for x in res) else None
+
+
 def classify_known(rec, gmodel, known_ids):
     """returns the id of the known-finding class that explains this non-agreeing record, or None"""
     q, out, e = rec["q"], rec["outcome"], rec["engine"]
